@@ -1212,7 +1212,36 @@ def _b_forall(R, a, k):
     kind = parse_kind(kind)
     x = R.fresh(kind, '_all')
     body = R.tobool(R.call(fn, [x], {}))
-    return ZV(z3.ForAll([x.e], body), 'bool')
+    consts = []
+    _collect_leaf_consts(R, x, consts)
+    return ZV(z3.ForAll(consts, body), 'bool')
+
+
+def _b_exists(R, a, k):
+    """exists(kind, lambda x: body): existentially quantified formula (specifications only)."""
+    kind, fn = a
+    from .world import parse_kind
+    kind = parse_kind(kind)
+    x = R.fresh(kind, '_ex')
+    body = R.tobool(R.call(fn, [x], {}))
+    consts = []
+    _collect_leaf_consts(R, x, consts)
+    return ZV(z3.Exists(consts, body), 'bool')
+
+
+def _collect_leaf_consts(R, v, out):
+    if isinstance(v, ZV):
+        out.append(v.e)
+    elif isinstance(v, TupleV):
+        for x in v.items:
+            _collect_leaf_consts(R, x, out)
+    elif isinstance(v, MapV):
+        out.append(v.arr)
+    elif isinstance(v, OptV):
+        out.append(v.isnone)
+        _collect_leaf_consts(R, v.val, out)
+    else:
+        raise OutOfReach('quantification over %r' % (v,))
 
 
 def _b_lemma_forall(R, a, k):
@@ -1262,7 +1291,7 @@ BUILTINS = {
     'member': mk('member', _b_member), 'empty_set': mk('empty_set', _b_empty_set),
     'seq_map': mk('seq_map', _b_seq_map), 'mk_tconst': mk('mk_tconst', _b_mk_tconst),
     'arr_lambda': mk('arr_lambda', _b_arr_lambda), 'forall': mk('forall', _b_forall),
-    'lemma_forall': mk('lemma_forall', _b_lemma_forall),
+    'lemma_forall': mk('lemma_forall', _b_lemma_forall), 'exists': mk('exists', _b_exists),
 }
 
 EXTERNALS = {
